@@ -109,7 +109,7 @@ def build(kinds, rot=0):
         if k == OPEN:
             stack.append(add('d%d' % n, pos, [], '>'))
         elif k == OPENA:
-            stack.append(add('e%d' % n, pos, [(' ', 'a', '"x>y"'), (' ', 'b', 'c'), ('\n', 'g', None)], ' >'))
+            stack.append(add('e%d' % n, pos, [(' ', 'a', '"x>y"'), (' ', 'class', '"c1  c2"'), (' ', 'b', 'c'), ('\n', 'g', None)], ' >'))
         elif k == CLOSE:
             e = stack.pop()
             s = pos
@@ -155,4 +155,44 @@ def enclosing(elems, pos):
     """elements strictly containing pos, innermost first (works with a symbolic pos)"""
     out = [e for e in elems if e.start < pos < e.end]
     out.sort(key=lambda e: -e.start)
+    return out
+
+
+def unquoted(value, vs, ve):
+    """range of the attribute value without its quotes / expression braces"""
+    if value[:1] in ('"', "'"):
+        return (vs + 1, ve - (1 if value[-1:] == value[:1] else 0))
+    if value[:1] == '{' and value[-1:] == '}':
+        return (vs + 1, ve - 1)
+    return (vs, ve)
+
+
+def selection_ranges(e):
+    """expected ranges of the select-item model of tag e (tag name, attributes, unquoted values, class tokens)"""
+    out = []
+
+    def push(r):
+        if r[0] != r[1] and (not out or out[-1] != r):
+            out.append(r)
+    push((e.open[0] + 1, e.open[0] + 1 + len(e.name)))
+    for (an, av, (ns, ne), vr) in e.attrs:
+        if av is None:
+            push((ns, ne))
+            continue
+        push((ns, vr[1]))
+        u = unquoted(av, vr[0], vr[1])
+        if u[0] != u[1]:
+            push(u)
+            if an == 'class':
+                text = av[u[0] - vr[0]:u[1] - vr[0]]
+                i = 0
+                while i < len(text):
+                    if text[i] in ' \t\xa0\n\r':
+                        i += 1
+                        continue
+                    j = i
+                    while j < len(text) and text[j] not in ' \t\xa0\n\r':
+                        j += 1
+                    push((u[0] + i, u[0] + j))
+                    i = j
     return out
